@@ -25,7 +25,7 @@ ASSUMPTIONS = ['mpmath 50-digit arithmetic is exact relative to float64',
                'rounding bounds: c*eps*cond(S) for mean/innovation, Joseph-form bound for P; '
                'cases with eps*cond(S) > 1e-5 are counted as ill-conditioned-skipped for the '
                'mean/innovation comparison only']
-REQUIRED_OBS = ['exactly_zero_residuals', 'partly_zero_residuals', 'post_checked', 'mean_compared', 'innovation_compared', 'sequential_compared',
+REQUIRED_OBS = ['returned_arrays_overwritten', 'exactly_zero_residuals', 'partly_zero_residuals', 'post_checked', 'mean_compared', 'innovation_compared', 'sequential_compared',
                 'info_form_compared', 'ambient_calls_checked']
 REQUIRED_CLASSES = {'all': ['well', 'illcond', 'rankdef_P', 'rankdef_H', 'offdiag_S', 'ambient']}
 EPS = np.finfo(float).eps
@@ -253,6 +253,18 @@ def run_case(case):
     LAST.clear()
     LAST['oracle'] = True
     obs = LAST.setdefault('obs', {})
+    # call history before the monitored correction: the other function of the module and a correction of the same size, whose returned
+    # arrays the caller overwrites (matrices handed out from a shared constant / memo would reach the monitored call below)
+    LAST['oracle'] = False
+    n_ = len(x)
+    for r_ in (kalman.compute_process_matrices(np.zeros((n_, n_)), np.eye(n_), 0.5), kalman.compute_process_matrices(np.eye(n_), np.eye(n_), 0.0),
+               kalman.correct(np.zeros(n_), np.eye(n_), np.zeros(1), np.eye(1, n_), np.eye(1))):
+        for a_ in r_:
+            if isinstance(a_, np.ndarray) and a_.flags.writeable:
+                a_[...] = 3.75
+                obs['returned_arrays_overwritten'] = obs.get('returned_arrays_overwritten', 0) + 1
+    PENDING.clear()
+    LAST['oracle'] = True
     res0 = z - H @ x
     if not res0.any():
         obs['exactly_zero_residuals'] = 1
